@@ -53,11 +53,12 @@ Section Sem.
   Definition tmm2_pattern alpha tA tB (x y : mat) := fused alpha tA tB x (tr y).
   Definition tmm2_rewrite alpha tA tB (x y : mat) := fused alpha tA (negb tB) x y.
   (* MatMulTranspose / FusedMatMulTranspose: Transpose((Fused)MatMul(x, y)) -> FusedMatMul(y, x, ...)
-     the code:   for name in ["transA", "transB"]: kwargs[name] = 1 - kwargs.get(name, 0)
-     i.e. the new transA is the negation of the OLD transA although the first operand is now y. *)
+     the code (since fix 8572307):  kwargs["transA"] = 1 - old transB;  kwargs["transB"] = 1 - old transA
+     before the fix:                for name in ["transA", "transB"]: kwargs[name] = 1 - kwargs.get(name, 0)
+     i.e. the new transA was the negation of the OLD transA although the first operand is now y. *)
   Definition mmt_pattern alpha tA tB (x y : mat) := option_map tr (fused alpha tA tB x y).
-  Definition mmt_rewrite_code alpha tA tB (x y : mat) := fused alpha (negb tA) (negb tB) y x.
-  Definition mmt_rewrite_right alpha tA tB (x y : mat) := fused alpha (negb tB) (negb tA) y x.
+  Definition mmt_rewrite_code alpha tA tB (x y : mat) := fused alpha (negb tB) (negb tA) y x.
+  Definition mmt_rewrite_old alpha tA tB (x y : mat) := fused alpha (negb tA) (negb tB) y x.
 End Sem.
 
 (* ------------------------------------------------------------------------------------------------ part 2 *)
@@ -100,11 +101,14 @@ Fixpoint list_eqb (a b : list nat) : bool :=
   | x :: a', y :: b' => Nat.eqb x y && list_eqb a' b'
   | _, _ => false
   end.
-Definition batch_check (r : batch_rule) (tb : bool) (perm : list nat) : bool :=
+(* "if len(perm) < 3: fail" (transBatchA/B need rank >= 3; before fix 8572307 only the empty perm was refused) *)
+Definition batch_check_old (r : batch_rule) (tb : bool) (perm : list nat) : bool :=
   match perm with
-  | [] => false                                                          (* "if not perm: fail" *)
+  | [] => false
   | _ => match expected_perm r tb (length perm) with Some e => list_eqb e perm | None => false end
   end.
+Definition batch_check (r : batch_rule) (tb : bool) (perm : list nat) : bool :=
+  Nat.leb 3 (length perm) && batch_check_old r tb perm.
 Definition batch_rewrite (r : batch_rule) (tb t : bool) : bool * bool :=
   match r with
   | FlipBoth => (negb tb, negb t)
@@ -112,14 +116,24 @@ Definition batch_rewrite (r : batch_rule) (tb t : bool) : bool * bool :=
   | FlipTrans => (tb, negb t)
   end.
 
-(* _TransposeMatMulBase.check.  perm = None: attribute absent (or empty); rank: rank of the transposed operand
-   (None = unknown); fused: Some transBatch of that side when the consumer is a FusedMatMul.
-   Python raises IndexError for len(perm) = 1: modelled as "does not fire" and listed as a finding by the harness. *)
-Definition simple_check (perm : option (list nat)) (rank : option nat) (fused_tb : option bool) : bool :=
-  (match perm with
-   | Some ((_ :: _) as p) => Nat.leb 2 (length p) && list_eqb (swap_last2 (length p)) p
-   | _ => match rank with Some 2 => true | _ => false end
-   end)
+(* The perm a Transpose node applies: the attribute, or -- attribute absent -- the ONNX default "reverse all axes". *)
+Definition default_perm (rank : nat) : list nat := rev (seq 0 rank).
+Definition transpose_perm (perm : option (list nat)) (rank : nat) : list nat :=
+  match perm with Some ((_ :: _) as p) => p | _ => default_perm rank end.
+
+(* _TransposeMatMulBase.check.  perm = None: attribute absent (or empty); rank: rank of the transposed operand, other:
+   rank of the other MatMul operand (None = unknown); fused: Some transBatch of that side when the consumer is a FusedMatMul.
+     if has_rank(x, 1) or has_rank(y, 1): fail                 (either operand 1-D)
+     if perm:  len(perm) >= 2 and perm == range(n) with the last two swapped
+     elif the TRANSPOSED operand is not known to have rank 2: fail      (default perm reverses ALL axes)
+     if fused and its transBatch on that side is set: fail *)
+Definition is_rank (r : option nat) (n : nat) : bool := match r with Some k => Nat.eqb k n | None => false end.
+Definition simple_check (perm : option (list nat)) (rank other : option nat) (fused_tb : option bool) : bool :=
+  negb (is_rank rank 1 || is_rank other 1)
+  && (match perm with
+      | Some ((_ :: _) as p) => Nat.leb 2 (length p) && list_eqb (swap_last2 (length p)) p
+      | _ => is_rank rank 2
+      end)
   && match fused_tb with Some true => false | _ => true end.
 
 (* attributes of a FusedMatMul node that the rules read / write: (transA, transB, transBatchA, transBatchB) *)
@@ -134,10 +148,10 @@ Definition side_get (pos : nat) (a : attrs) : bool * bool :=        (* (transBat
 Definition side_set (pos : nat) (a : attrs) (v : bool * bool) : attrs :=
   let '(tA, tB, tbA, tbB) := a in let '(tb, t) := v in
   if Nat.eqb pos 1 then (t, tB, tb, tbB) else (tA, t, tbA, tb).
-Definition transpose_operand_rules (is_fused : bool) (pos : nat) (perm : option (list nat)) (rank : option nat)
+Definition transpose_operand_rules (is_fused : bool) (pos : nat) (perm : option (list nat)) (rank other : option nat)
                                    (a : attrs) : option attrs :=
   let '(tb, t) := side_get pos a in
-  if simple_check perm rank (if is_fused then Some tb else None) then Some (side_set pos a (tb, negb t))
+  if simple_check perm rank other (if is_fused then Some tb else None) then Some (side_set pos a (tb, negb t))
   else if negb is_fused then None
   else match perm with
        | None => None       (* Python: transposed_node.attributes["perm"] raises KeyError -- not exercised *)
@@ -154,7 +168,7 @@ Definition output_transpose_rules (perm : option (list nat)) (rank_x rank_y : op
   match rank_x, rank_y with
   | Some 2, Some 2 =>
       let ok := match perm with Some ((_ :: _) as p) => list_eqb [1; 0] p | _ => true end in
-      if ok then let '(tA, tB, tbA, tbB) := a in Some (negb tA, negb tB, tbA, tbB) else None
+      if ok then let '(tA, tB, tbA, tbB) := a in Some (negb tB, negb tA, tbA, tbB) else None
   | _, _ => None
   end.
 
@@ -165,11 +179,11 @@ Definition attrs_eqb (a b : attrs) : bool :=
 Definition oattrs_eqb (a b : option attrs) : bool :=
   match a, b with Some x, Some y => attrs_eqb x y | None, None => true | _, _ => false end.
 Inductive mm_case :=
-  | COperand (is_fused : bool) (pos : nat) (perm : option (list nat)) (rank : option nat) (a : attrs) (observed : option attrs)
+  | COperand (is_fused : bool) (pos : nat) (perm : option (list nat)) (rank other : option nat) (a : attrs) (observed : option attrs)
   | COutput (perm : option (list nat)) (rank_x rank_y : option nat) (a : attrs) (observed : option attrs).
 Definition mm_agrees (c : mm_case) : bool :=
   match c with
-  | COperand f pos perm rank a obs => oattrs_eqb (transpose_operand_rules f pos perm rank a) obs
+  | COperand f pos perm rank other a obs => oattrs_eqb (transpose_operand_rules f pos perm rank other a) obs
   | COutput perm rx ry a obs => oattrs_eqb (output_transpose_rules perm rx ry a) obs
   end.
 Fixpoint mm_disagreeing (i : nat) (cs : list mm_case) : list nat :=
